@@ -19,6 +19,11 @@ func propC06(c *Ctx, r *Report) {
 	r.Clauses = append(r.Clauses, "evaluator math selection (E2): in every switch over ir.MathFunction the functions of Go's math and math/bits packages referenced in the arm for a builtin are ones with that builtin's meaning (round -> math.RoundToEven, trunc -> math.Trunc, countLeadingZeros -> bits.LeadingZeros32/64, ...; reference table from the WGSL builtin definitions)")
 	c.runEvalMath(r, map[string]bool{"wgsl/internal/lower": true, "ir": true, "msl/internal/codegen": true, "dxil/internal/emit": true, "hlsl/internal/codegen": true, "glsl/internal/codegen": true, "spirv/internal/codegen": true})
 	r.floor("evalsel.matharms", 25)
+	r.Clauses = append(r.Clauses, orderClause+" - here: the lowering of binary expressions, the scalar/vector constant folders and the evaluators of package ir")
+	c.runOperandOrder(r, "order.wgsl", inPkgs("wgsl"))
+	c.runOperandOrder(r, "order.ir", inPkgs("ir"))
+	r.floor("order.wgsl", orderFloors["wgsl"])
+	r.floor("order.ir", orderFloors["ir"])
 	r.Clauses = append(r.Clauses, "numeric literal conversion (E10): no strconv conversion of a WGSL numeric literal in the lowerer discards its error (a literal that is not representable must be an error, not a saturated value)")
 	c.runErrflowFiltered(r, inPkgs("wgsl/internal/lower"), nil, func(callee string) bool { return strings.HasPrefix(callee, "strconv.") }, false)
 }
